@@ -90,6 +90,17 @@ def do_call(h, built, call):
         h.elaborate(arg)
     elif kind == "to_proto":
         h.to_proto(arg)
+    elif kind == "to_proto_sub":
+        # through a customized Elaborator: the stock passes, each replaced by a user's (empty) sub-class of it
+        from hdl21.elab import Elaborator, set_elaborator, reset_elaborator
+
+        custom = Elaborator.default()
+        custom.passes = [type("My" + p.__name__, (p,), {}) for p in custom.passes]
+        set_elaborator(custom)
+        try:
+            h.to_proto(arg)
+        finally:
+            reset_elaborator()
     else:
         h.netlist(arg, io.StringIO(), fmt="spice")
 
@@ -275,6 +286,8 @@ def run(ctx):
         design = dags.DAGS[dname]()
         calls = calls_for(design)
         hists = [[c] for c in calls] + [[a, b] for a in calls for b in calls]
+        subs = [("to_proto_sub", (m,)) for m in design["modules"]]
+        hists += [[b] for b in subs] + [[a, b] for a in calls for b in subs] + [[b, a] for a in calls for b in subs]
         if not ctx.quick:
             rc = calls_for(design, reduced=True)
             hists += [[a, b, c] for a in rc for b in rc for c in rc]
